@@ -495,9 +495,15 @@ def gen_case(prop, seed, c):
 
 
 # ------------------------------------------------------------------------------------ reporting
-def known_match(known, sig):
+def known_match(known, sig, source=None):
+    """an open entry matches by exact signature; an entry with `only_source` is tied to one corpus witness (the
+    same signature coming from any other input is still reported)"""
     for k in known:
-        if k.get('status') == 'open' and k.get('signature') == sig:
+        if k.get('status') != 'open':
+            continue
+        sigs = k.get('signature')
+        sigs = sigs if isinstance(sigs, list) else [sigs]
+        if sig in sigs and (k.get('only_source') is None or k.get('only_source') == source):
             return k
     return None
 
@@ -598,7 +604,7 @@ def run(prop, tier, seed, replay):
             counts[p['kind']] += 1
         for p in P:
             sig = p['sig']
-            k = known_match(known, sig)
+            k = known_match(known, sig, source)
             if k:
                 known_seen.setdefault(k.get('id'), [0, k])[0] += 1
                 continue
